@@ -285,6 +285,16 @@ inductive Op (K : Type) where
   | arith (t : Handle) (f : BinOp) (raw : Bool) (src : Src K) (idx : Idx)
   /-- `set_var` / `__setitem__` / `set_vals` (`raw`) and `_abs_set_val` (not `raw`) -/
   | named (t : Handle) (name : String) (f : BinOp) (raw : Bool) (vals : List (Cx K)) (idx : Idx)
+  /-- `set_var(name, val, idxs)` with `flat=False` and an arbitrary (N-D, negative, stepped, fancy)
+  index.  NumPy resolves the index on the variable's shape; the model receives the result:
+  `sel` = flat (row-major) positions of the selected entries in selection order (`none`: NumPy
+  rejects the index), `bvals` = the values NumPy's broadcasting assigns to them when the value is
+  directly assignable (`none` otherwise), `vals` = the value's entries in C order.  What is
+  modelled is `Vector.set_var`'s own logic: try `view[idxs] = value`; if that raises, reshape the
+  value to the selection's shape (same number of entries) and assign *to the vector*; anything
+  else is a `ValueError`. -/
+  | setVarSel (t : Handle) (name : String) (sel : Option (List Nat))
+      (bvals : Option (List (Cx K))) (vals : List (Cx K))
   /-- `vec[name] op= vals`: `__getitem__`, in-place operator on the returned view, `__setitem__` -/
   | namedIop (t : Handle) (name : String) (f : BinOp) (vals : List (Cx K))
   /-- `get_val(name)` / `__getitem__` (flattened) -/
@@ -375,6 +385,18 @@ def step (st : State K) : Op K → State K × Out K
     match t.var name with
     | none => (st, .err "name")
     | some h => arithStep st h f raw (.vals vals) idx
+  | .setVarSel t name sel bvals vals =>
+    match t.var name with
+    | none => (st, .err "name")
+    | some h =>
+      match sel with
+      | none => (st, .err "shape")
+      | some ps =>
+        match bvals with
+        | some b => arithStep st h .set true (.vals b) (.list ps)
+        | none =>
+          if vals.length = ps.length then arithStep st h .set true (.vals vals) (.list ps)
+          else (st, .err "shape")
   | .namedIop t name f vals =>
     match t.var name with
     | none => (st, .err "name")
@@ -424,6 +446,7 @@ def Op.target : Op K → Option Nat
   | .arith t _ _ _ _ => some t.vid
   | .named t _ _ _ _ _ => some t.vid
   | .namedIop t _ _ _ => some t.vid
+  | .setVarSel t _ _ _ _ => some t.vid
   | .scale t _ _ => some t.vid
   | _ => none
 
